@@ -21,6 +21,8 @@ def replay(path):
 
 
 def extra(chk, info, res):
+    from checks import guards_common
+    guards_common.correspondence(chk, ['filtration_allow_heating', 'pump_stopped_in_standby'])
     if info is not None:
         from vlib import lean
         lean.check_theorems(chk, "Poupool.Properties.C08", ["Poupool.C08.filtration_timeouts", "Poupool.C08.other_timeouts", "Poupool.C08.filtration_timers"])
